@@ -48,12 +48,22 @@ func copyFields(k vmodel.StructKind) []vmodel.Field {
 	return out
 }
 
+var longCopyShapes bool
+
 func firstShape(t reflect.Type) string {
 	switch {
 	case t.Kind() == reflect.Interface:
+		if longCopyShapes {
+			return "list9"
+		}
 		return "obj:Object"
 	case t == vmodel.IcT:
+		if longCopyShapes {
+			return "l9"
+		}
 		return "l2"
+	case t == vmodel.NlvT && longCopyShapes:
+		return "nlv9"
 	}
 	return vmodel.FieldShapes(t, true)[0]
 }
@@ -328,7 +338,9 @@ func init() {
 						}
 					}
 					c.Distinct(cc.String(), len(cc.Fields) > 0)
+					longCopyShapes = idx%5 == 0 // every fifth case uses 9-member lists and 9-language texts
 					runCopy(c, cc, idx+1000000)
+					longCopyShapes = false
 				}},
 			}
 		},
